@@ -11,20 +11,20 @@ import (
 type Kind int
 
 const (
-	KProgram Kind = iota
-	KLet          // Name, Kids[0]=value (optional)
-	KFuncDecl     // Name, Params, Kids=body statements
-	KReturn       // Kids[0]=value (optional)
-	KIf           // Kids[0]=cond Kids[1]=then Kids[2]=else(optional)
-	KWhile        // cond, body
-	KFor          // Kids[0..2]=init,cond,update (nil allowed) Kids[3]=body
-	KBlock        // statements
-	KExprStmt     // Kids[0]
-	KIdent        // Name
-	KNum          // Text (raw)
-	KStr          // Text = raw body between the quotes as written in the source; Val = meaning (if known)
-	KTpl          // Text = raw body between backticks
-	KBool         // Name = "true"/"false"
+	KProgram  Kind = iota
+	KLet           // Name, Kids[0]=value (optional)
+	KFuncDecl      // Name, Params, Kids=body statements
+	KReturn        // Kids[0]=value (optional)
+	KIf            // Kids[0]=cond Kids[1]=then Kids[2]=else(optional)
+	KWhile         // cond, body
+	KFor           // Kids[0..2]=init,cond,update (nil allowed) Kids[3]=body
+	KBlock         // statements
+	KExprStmt      // Kids[0]
+	KIdent         // Name
+	KNum           // Text (raw)
+	KStr           // Text = raw body between the quotes as written in the source; Val = meaning (if known)
+	KTpl           // Text = raw body between backticks
+	KBool          // Name = "true"/"false"
 	KNull
 	KArr  // elements
 	KObj  // Kids = k0,v0,k1,v1...
@@ -50,12 +50,12 @@ type Node struct {
 	Level  int // KRaw infix: registered precedence level (xjs scale)
 }
 
-func Id(n string) *Node             { return &Node{K: KIdent, Name: n} }
-func Num(t string) *Node            { return &Node{K: KNum, Text: t} }
-func Str(t string) *Node            { return &Node{K: KStr, Text: t} }
+func Id(n string) *Node               { return &Node{K: KIdent, Name: n} }
+func Num(t string) *Node              { return &Node{K: KNum, Text: t} }
+func Str(t string) *Node              { return &Node{K: KStr, Text: t} }
 func Bin(op string, l, r *Node) *Node { return &Node{K: KBin, Op: op, Kids: []*Node{l, r}} }
-func Un(op string, x *Node) *Node   { return &Node{K: KUn, Op: op, Kids: []*Node{x}} }
-func Post(op string, x *Node) *Node { return &Node{K: KPost, Op: op, Kids: []*Node{x}} }
+func Un(op string, x *Node) *Node     { return &Node{K: KUn, Op: op, Kids: []*Node{x}} }
+func Post(op string, x *Node) *Node   { return &Node{K: KPost, Op: op, Kids: []*Node{x}} }
 func Asg(op string, l, r *Node) *Node { return &Node{K: KAsg, Op: op, Kids: []*Node{l, r}} }
 func Call(f *Node, args ...*Node) *Node {
 	return &Node{K: KCall, Kids: append([]*Node{f}, args...)}
